@@ -148,6 +148,15 @@ func check(c *pbt.Ctx, cs Case) {
 	if !bytes.Equal(data, enc) {
 		c.Failf("input-modified", "t2j.Do modified its input buffer")
 	}
+	// the caller's buffer is the caller's again: the returned document must not point into it
+	keepOut := append([]byte(nil), out...)
+	for i := range data {
+		data[i] = 0xEE
+	}
+	if !bytes.Equal(out, keepOut) {
+		c.Failf("result-aliases-input", "the document returned by t2j.Do changed when the caller overwrote its input buffer")
+	}
+	copy(data, enc)
 	if err != nil {
 		switch {
 		case !finite:
